@@ -49,7 +49,8 @@ RULE = (
     "MassMatrixAdaptor +-regularize / swap_every / variance_window / restart) x weights, acceptance windows, disable_adaptation, dtype, logger; "
     "plus the interruption epoch N (a multiple of the checkpoint frequency), the final epoch T and the torch seed. "
     "Sub-check 'roundtrip': run to N, restart with --dry -c, compare live state. 'trajectory': additionally full run to T vs resumed run, "
-    "compared at every checkpoint after N. 'grid': every optimiser x every scheduler once, and every adaptor set once (enumerated). "
+    "compared at every checkpoint after N. 'grid': every optimiser x every scheduler once, every adaptor set x mass matrix form once, and long runs that restart "
+    "in the middle of a variance window / between two estimator swaps (enumerated). "
     "Non-trivial = N >= 2 (moments / counters non-zero) and at least one scheduler or adaptor (for MCMC: an adapting operator); for 'trajectory' also T > N. "
     "Distinct = the whole configuration without seed and initial values."
 )
@@ -454,6 +455,10 @@ def workdir():
         shutil.rmtree(d, ignore_errors=True)
 
 
+class _StopRun(Exception):
+    """raised by a harness hook to end main() before run() (the state to continue from is already known to be wrong)"""
+
+
 def _alg_classes():
     from torchtree.inference.mcmc.mcmc import MCMC
     from torchtree.optim.optimizer import Optimizer
@@ -513,6 +518,8 @@ def run_main(argv, on_save=None, on_run=None):
             ttm.main()
         except SystemExit as e:
             raise RuntimeError("torchtree.main exited (%s) for argv %s" % (e.code, argv))
+        except _StopRun:
+            reg["stopped"] = True
         except ZeroDivisionError as e:
             # MCMC.run prints accept/(accept+reject) per operator after the last iteration (loggers closed, all
             # checkpoints written) and divides by zero for an operator that was never drawn: not this property's subject
@@ -678,6 +685,21 @@ def mcmc_config(c, iterations):
             dists.append(_dist("prior." + pid, "Normal", _pspec(pid, o["values"], dtype=dt), {"loc": [0.3], "scale": [1.5]}))
             base.update(type="SlidingWindowOperator", parameters=pid, width=o["tuning"])
             logged.append(pid)
+        elif o["type"] == "gmrf":
+            names = ["A", "B", "C", "D", "E"]
+            dates = [0.0, 0.0, 0.5, 1.0, 0.0]
+            spec.append({"id": "taxa", "type": "Taxa", "taxa": [{"id": n, "type": "Taxon", "attributes": {"date": d}} for n, d in zip(names, dates)]})
+            tree = {"id": "tree", "type": "TimeTreeModel", "newick": "(((A:1,B:1):1,C:1.5):1,(D:1.5,E:2.5):0.5);", "taxa": "taxa",
+                    "internal_heights": {"id": "tree.heights", "type": "Parameter", "tensor": [1.0, 2.0, 2.5, 3.0]}}
+            dists.append({"id": "coalescent", "type": "PiecewiseConstantCoalescentGridModel", "tree_model": tree,
+                          "theta": {"id": "theta", "type": "TransformedParameter", "transform": "torch.distributions.ExpTransform",
+                                    "x": _pspec("theta.log", o["values"], dtype=dt)},
+                          "grid": {"id": "grid", "type": "Parameter", "tensor": [0.8 * (k + 1) for k in range(len(o["values"]) - 1)]}})
+            dists.append({"id": "gmrf", "type": "GMRF", "x": "theta.log", "precision": _pspec("gmrf.precision", [o["precision"]], dtype=dt)})
+            dists.append(_dist("prior.gmrf.precision", "Gamma", "gmrf.precision", {"concentration": [1.0], "rate": [1.0]}))
+            base.pop("acceptance_window_length", None)
+            base.update(type="GMRFPiecewiseCoalescentBlockUpdatingOperator", coalescent="coalescent", gmrf="gmrf", scaler=o["tuning"])
+            logged += ["theta.log", "gmrf.precision"]
         elif o["type"] == "dirichlet":
             pid = "s%d" % i
             dists.append(_dist("prior." + pid, "Dirichlet", _pspec(pid, o["values"], dtype=dt), {"concentration": [2.0 + 0.5 * k for k in range(len(o["values"]))]}))
@@ -768,7 +790,8 @@ def tags_of(c):
     ops = sorted({o["type"] for o in c["ops"]})
     ads = sorted({a["type"] for o in c["ops"] if o["type"] == "hmc" for a in o["adaptors"]})
     default = c.get("argv_dtype") or "float64"
-    return {"alg": "MCMC", "operators": ops, "adaptors": ads or ["none"], "mixed_dtype": (c.get("dtype") or default) != default}
+    return {"alg": "MCMC", "operators": ops, "adaptors": ads or ["none"], "mixed_dtype": (c.get("dtype") or default) != default,
+            "find_reasonable_step_size": any(o.get("frs") for o in c["ops"])}
 
 
 def key_of(c, sub):
@@ -810,6 +833,8 @@ def labels_of(c):
         labs.append("op=" + o["type"])
         if o["type"] == "hmc":
             labs.append("mass=" + o["mass"])
+            if o.get("frs"):
+                labs.append("find_reasonable_step_size")
             for a in o["adaptors"]:
                 labs.append("adaptor=" + a["type"])
                 if a["type"] == "mass" and (a.get("swap") or a.get("window")):
@@ -972,7 +997,11 @@ def body_trajectory(c):
         def on_run(alg):
             seen["snap"] = snapshot(alg)
             usable = _check_epoch(res, c, alg._epoch, N)
-            seen["usable"] = usable
+            n0 = len(res.fails)
+            compare(before, seen["snap"], res.fail)
+            if len(res.fails) > n0 or not usable or before.get("torch_casts_state"):
+                seen["stop"] = True
+                raise _StopRun()  # nothing sound can be said about the continuation
             if alg._epoch != N + 1:
                 alg._epoch = N + 1  # see ASSUMPTIONS: reported once, then compensated
             torch.set_rng_state(before["rng"])
@@ -983,9 +1012,7 @@ def body_trajectory(c):
         if "snap" not in seen:
             res.fail("not_run", {"what": "the restarted algorithm was built but run() was never called"}, bucket=tags_of(c)["alg"])
             return res
-        n_before = len(res.fails)
-        compare(before, seen["snap"], res.fail)
-        if len(res.fails) > n_before or not seen["usable"]:
+        if seen.get("stop") and not before.get("torch_casts_state"):
             res.labels = tuple(res.labels) + ("trajectory_skipped_state_lost",)
             res.nontrivial = False  # (b) was not evaluated for this case
             return res
@@ -1189,9 +1216,12 @@ def mcmc_cases(draw, continue_=False, adaptors="draw", need_hmc=False, mass=None
     c = {"alg": "mcmc", "torch_seed": draw(st.integers(0, 2**31 - 1)), "argv_dtype": draw(st.sampled_from([None, None, None, "float64", "float32"])),
          "dtype": draw(st.sampled_from([None, None, "float64", "float32"]))}
     ops = []
-    types = draw(st.lists(st.sampled_from(["scaler", "slide", "dirichlet", "hmc", "hmc"]), min_size=1, max_size=4))
+    types = draw(st.lists(st.sampled_from(["scaler", "slide", "dirichlet", "hmc", "hmc", "gmrf"]), min_size=1, max_size=4))
     if need_hmc and "hmc" not in types:
         types[0] = "hmc"
+    # one tree / coalescent / GMRF per configuration, in the session's default dtype
+    first = types.index("gmrf") if "gmrf" in types else None
+    types = [t for k, t in enumerate(types) if t != "gmrf" or (k == first and c["dtype"] is None)] or ["slide"]
     for t in types:
         o = {"type": t, "weight": draw(st.sampled_from([1.0, 1.0, 2.0, 0.5])), "disable": draw(st.integers(0, 5)) == 0}
         if draw(st.integers(0, 2)) == 0:
@@ -1204,6 +1234,10 @@ def mcmc_cases(draw, continue_=False, adaptors="draw", need_hmc=False, mass=None
         elif t == "slide":
             o["values"] = [round(draw(fl(-2.0, 2.0)), 3) for _ in range(draw(st.integers(1, 3)))]
             o["tuning"] = draw(st.sampled_from([0.1, 0.5, 2.0]))
+        elif t == "gmrf":
+            o["values"] = [round(draw(fl(-1.0, 2.0)), 3) for _ in range(draw(st.integers(2, 5)))]
+            o["precision"] = round(draw(logu(0.2, 5.0)), 3)
+            o["tuning"] = draw(st.sampled_from([2.0, 1.5, 4.0]))
         elif t == "dirichlet":
             k = draw(st.integers(2, 4))
             v = [draw(st.integers(1, 5)) for _ in range(k)]
@@ -1217,6 +1251,8 @@ def mcmc_cases(draw, continue_=False, adaptors="draw", need_hmc=False, mass=None
             o["mass"] = mass or draw(st.sampled_from(["diag", "dense"]))
             kinds = draw(st.sampled_from(ADAPTOR_SETS)) if adaptors == "draw" else adaptors
             o["adaptors"] = [_adaptor(draw, k) for k in kinds]
+            if draw(st.integers(0, 7)) == 0:
+                o["frs"] = True
         ops.append(o)
     c["ops"] = ops
     c["ckname"] = draw(st.sampled_from([None, None, True, "state.json"]))
@@ -1267,6 +1303,14 @@ def grid(tier):
             c = _first(mcmc_cases(True, adaptors=ads, need_hmc=True, mass=mass), 1000 + k)
             c["N"], c["f"], c["T"] = 8, 4, 16
             out.append(c)
+    # state whose loss only shows late: the sample window of variance_window (first removal after 100 samples) and the
+    # second estimator of swap_every (next swap), restart in the middle
+    for mass in ("diag", "dense"):
+        for a, (N, f, T) in (({"type": "mass", "freq": 3, "regularize": True, "window": 1}, (60, 60, 120)),
+                             ({"type": "mass", "freq": 3, "regularize": True, "swap": 5}, (7, 1, 18))):
+            out.append({"alg": "mcmc", "torch_seed": 11, "argv_dtype": None, "dtype": None, "ckname": None, "logger": False, "every": 0,
+                        "ops": [{"type": "hmc", "weight": 1.0, "disable": False, "values": [[0.3, -0.4], [0.2]], "steps": 2, "step_size": 0.2,
+                                 "mass": mass, "adaptors": [dict(a), {"type": "adaptive", "use_rate": False}]}], "N": N, "f": f, "T": T})
     return out
 
 
@@ -1289,7 +1333,7 @@ def selftest():
 
 def subchecks(tier):
     return [
-        Sub("roundtrip", body_roundtrip, strategy=cases_roundtrip, quick=500, thorough=8000),
-        Sub("trajectory", body_trajectory, strategy=cases_trajectory, quick=360, thorough=6000),
+        Sub("roundtrip", body_roundtrip, strategy=cases_roundtrip, quick=1200, thorough=16000),
+        Sub("trajectory", body_trajectory, strategy=cases_trajectory, quick=800, thorough=12000),
         Sub("grid", body_trajectory, enumerate=grid, exhaustive=True),
     ]
